@@ -496,6 +496,10 @@ example : (run refsLang renameHist).report refsLang =
     [(1, "X5", b "множество", b "множество", [], []),
      (2, "D1", b "большое @{X5|nomn,sing}", b "большое множество", [], []),
      (3, "D2", [], [], b "см. @{D1|nomn,sing} далее", b "см. большое множество далее")] := by decide +kernel
+/-- renaming with substitution is invisible in the resolved texts: they are the ones before the renaming -/
+example : ((run refsLang renameHist).report refsLang).map (fun r => (r.1, r.2.2.2.1, r.2.2.2.2.2)) =
+    ((run refsLang (renameHist.take 3)).report refsLang).map (fun r => (r.1, r.2.2.2.1, r.2.2.2.2.2)) := by
+  decide +kernel
 /-- … and equal the from-scratch rebuild, by the theorem -/
 example : (run refsLang renameHist).report refsLang = ((run refsLang renameHist).scratch refsLang).report refsLang :=
   terms_eq_scratch_refs_partial2 renameHist ⟨trivial, trivial, trivial, trivial, trivial⟩
